@@ -16,7 +16,8 @@ BOUND = ("boundary-free hat basis on [0,1]^d, d<=3; uniform component grids: eve
          "{(1,2),(1,3),(2,3)}, d in {2,3}, 1..3 refinement steps chosen by a seeded adversarial ErrorCalculator, margin in {0.5,0.9}, "
          "rebalancing on/off, (b) seeded random bisection-tree stripes (point levels <=6, <=19 interior points per dimension, N<=400) fed "
          "to calculate_operation_dimension_wise of an operation initialised by a real zero-step run; data sets of 1..40 samples in the "
-         "closed unit cube of kinds random / on dyadic grid lines / on the domain boundary / clustered / mixed; hat evaluations additionally at "
+         "closed unit cube of kinds random / on dyadic grid lines / on the domain boundary / clustered / mixed, plus anchor data sets of 4097..12500 "
+         "(labelled) samples on small uniform grids; sequences of 4 level vectors (first one revisited) on ONE operation; hat evaluations additionally at "
          "grid points, cell mid points, corners and points one floating-point neighbour below/above interior grid coordinates; lambda in {0,1e-3,0.1}; "
          "mass lumping on/off; analytic and numeric (1-D: N<=15, 2-D: N<=3) matrix entries; class labels none or +-1; right-hand side on the "
          "small (N<200), large (N>=200) and reuse (N>=200, previous iteration present) paths, natively on grids with N>=200 and, in the "
@@ -40,10 +41,15 @@ CLAUSES = {
     "B.solve.system": "returned surpluses == c*x + s with x the solution of (Gram + lambda I) x = rhs (mass lumped: diagonal), c>0, "
                       "s=0 without class labels; residual <= 1e-7 relative",
     "B.run.returns": "the real entry points return normally on valid input",
+    "B.hist.idempotent": "the same query (matrix, right-hand side, surpluses of a level vector) repeated on the same operation returns the same "
+                         "values (rel 1e-12); a level vector revisited after others satisfies all clauses above again",
+    "B.hist.report_stable": "arrays handed out earlier (surpluses, right-hand sides, matrices) still equal the copy taken when they were "
+                            "returned, after later evaluations on the same operation",
 }
 
 DE = "sparseSpACE.GridOperation:DensityEstimation."
 ML = "sparseSpACE.GridOperation:MachineLearning."
+MLS = ML
 
 
 # ------------------------------------------------------------------------------------------------
@@ -264,6 +270,7 @@ def make_oracle(seed, steps, hook=None):
             super().__init__()
             self.is_global = True
             self.round = 0
+            self.steps = steps          # may be raised later (continue_adaptive_refinement)
 
         def calc_global_error(self, data, grid_scheme):
             self.round += 1
@@ -271,7 +278,7 @@ def make_oracle(seed, steps, hook=None):
                 hook(self.round, grid_scheme)
 
         def calc_error(self, refine_object, norm, volume_weights=None):
-            if self.round > steps:
+            if self.round > self.steps:
                 return 0.0
             key = repr((seed, self.round, int(refine_object.this_dim), float(refine_object.start), float(refine_object.end)))
             v = int.from_bytes(hashlib.sha1(key.encode()).digest()[:4], "big") / 2.0 ** 32
@@ -593,6 +600,53 @@ def case_uniform(ctx, case):
         check_hats_uniform(ctx, op, list(lv), stripes, X)
 
 
+def case_uniform_seq(ctx, case):
+    """history on ONE operation: a sequence of level vectors (with revisits) through evaluate_levelvec; every step is compared with the
+    reference (state left by earlier level vectors must not leak), every query is repeated, everything handed out is re-read at the end"""
+    import numpy as np
+    from sparseSpACE.ComponentGridInfo import ComponentGridInfo
+    d, lam, ml = case["d"], case["lam"], case["ml"]
+    data, labels = make_data(d, case["data"])
+    sg = signs_of(labels, len(data))
+    op = new_de(d, data, labels, lam=lam, masslumping=ml)
+    with ctx.guard("B.run.returns", MLS + "initialize", "uniform-seq"):
+        with quiet():
+            op.initialize()
+    handed = []                                         # (what, live object, copy at hand-out time)
+    for step, lv in enumerate(case["lvs"]):
+        lv = [int(x) for x in lv]
+        stripes = uniform_stripes(lv)
+        N = num_points(stripes)
+        Gref = gram(stripes)
+        bref = basis_matrix(stripes, op.data).T @ sg / len(data)
+        tag = "uniform-seq" if step == 0 else "uniform-seq-later"
+        alphas = R = b = None
+        with ctx.guard("B.run.returns", DE + "evaluate_levelvec", tag):
+            with quiet():
+                alphas = op.evaluate_levelvec(ComponentGridInfo(list(lv), 1))
+                R = op.build_R_matrix(list(lv))
+                b = op.calculate_B(op.data, list(lv))
+                alphas2 = op.evaluate_levelvec(ComponentGridInfo(list(lv), 1))
+                R2 = op.build_R_matrix(list(lv))
+                b2 = op.calculate_B(op.data, list(lv))
+        if alphas is None or R is None or b is None:
+            continue
+        check_matrix(ctx, R, Gref, lam, ml, False, stripes, DE + "build_R_matrix", True)
+        ctx.check("B.rhs.mean", close(b, bref, rel=0, abs_=1e-12), DE + "calculate_B", tag + ("-small" if N < 200 else "-large"),
+                  "step %d, level %s: max |b - reference| = %.3e" % (step, lv, np.max(np.abs(np.asarray(b, dtype=float) - bref))))
+        Rm = np.full(N, float(R)) if np.ndim(R) == 0 else R
+        check_norm_and_solve(ctx, alphas, stripes, Rm, b, ml, labels, DE + "solve_density_estimation", tag)
+        same = close(alphas, alphas2, rel=1e-12, abs_=1e-14) and close(np.asarray(R, dtype=float), np.asarray(R2, dtype=float), rel=1e-12, abs_=1e-16) \
+            and close(b, b2, rel=1e-12, abs_=1e-15)
+        ctx.check("B.hist.idempotent", same, DE + "evaluate_levelvec", tag, "step %d, level %s: repeating the queries changed the values" % (step, lv))
+        stored = op.surpluses.get(tuple(lv))
+        for what, obj in (("surpluses", alphas), ("stored-surpluses", stored), ("rhs", b), ("matrix", R)):
+            if isinstance(obj, np.ndarray):
+                handed.append((what, step, obj, obj.copy()))
+    bad = [(what, step) for what, step, obj, cp in handed if not np.array_equal(obj, cp)]
+    ctx.check("B.hist.report_stable", not bad, DE + "evaluate_levelvec", "uniform-seq", "arrays handed out earlier were modified later: %s" % bad[:4])
+
+
 def stripes_key(stripes):
     return tuple(tuple(float(x) for x in s) for s in stripes)
 
@@ -738,6 +792,7 @@ def case_tree(ctx, case):
         return
     store = record_rhs(op, None)
     hook = op.calculate_B_dimension_wise
+    handed = []
     for gi, (stripes, levels) in enumerate(case["grids"]):
         lv = tuple(max(l) for l in levels)
         alphas = None
@@ -751,6 +806,8 @@ def case_tree(ctx, case):
         del op.calculate_B_dimension_wise
         if alphas is None:
             continue
+        if isinstance(alphas, np.ndarray):
+            handed.append((gi, alphas, alphas.copy()))
         paths = ["native"] if N < 200 else []       # on large grids the recorded run value already is the native path
         if case.get("patch", True) and N < 200:
             paths += ["forced-small", "forced-large"]
@@ -759,6 +816,9 @@ def case_tree(ctx, case):
         if case.get("reuse", False):
             with ctx.guard("B.run.returns", ML + "post_processing", "tree-reuse"):
                 op.post_processing()
+    bad = [gi for gi, obj, cp in handed if not np.array_equal(obj, cp)]
+    ctx.check("B.hist.report_stable", not bad, DE + "calculate_operation_dimension_wise", "tree-seq",
+              "surpluses stored for earlier grids were modified by later evaluations: grids %s" % bad)
 
 
 def refine_stripes(rng, stripes, levels, k, maxlevel=6):
@@ -827,7 +887,7 @@ def _run(ctx):
     full_large = 0
     for rep in range(reps):
         for d, lv, n in lvs:
-            if ctx.out_of_time(0.45):
+            if ctx.out_of_time(0.40):
                 break
             if quick and n >= 200 and lv not in ((4, 4), (3, 3, 3), (2, 4, 4)):
                 continue
@@ -840,6 +900,28 @@ def _run(ctx):
                     "data": random_data_desc(rng, mmax=25 if n >= 200 else 40), "patch": n <= 250, "hats": rng.random() < (0.4 if quick else 0.8)}
             ctx.case(case)
             case_uniform(ctx, case)
+    # ---- documented size constants: the small-grid right-hand side handles the samples in one vectorised block; data sets larger than
+    # any internal block size (anchor: > 4096 and > 8192 samples), with and without labels, on small grids
+    for k, (M, lab) in enumerate([(9000, True), (4097, True)] if quick else [(9000, True), (4097, True), (9000, False), (8193, True), (12500, True), (5000, True)]):
+        d = 2 if k % 2 == 0 else 1
+        lv = [rng.randint(1, 3) for _ in range(d)] if d == 2 else [rng.randint(2, 4)]
+        case = {"kind": "uniform", "d": d, "lv": lv, "lam": rng.choice(LAMBDAS), "ml": rng.random() < 0.3,
+                "data": {"kind": rng.choice(["random", "clustered", "mixed"]), "M": M, "seed": rng.randrange(2 ** 31), "labels": lab},
+                "patch": k == 0, "hats": False}
+        ctx.case(case)
+        case_uniform(ctx, case)
+    # ---- histories on one operation: sequences of level vectors with revisits
+    small_lvs = [(d, lv) for d, lv, n in lvs if n <= 60]
+    for k in range(8 if quick else 60):
+        if ctx.out_of_time(0.5):
+            break
+        d = rng.choice([1, 2, 2, 3])
+        pool = [lv for dd, lv in small_lvs if dd == d]
+        seq = [list(rng.choice(pool)) for _ in range(3)]
+        seq.append(seq[0])
+        case = {"kind": "uniform_seq", "d": d, "lvs": seq, "lam": rng.choice(LAMBDAS), "ml": rng.random() < 0.3, "data": random_data_desc(rng)}
+        ctx.case(case)
+        case_uniform_seq(ctx, case)
     tsec["uniform"] = time.time() - t0
     t0 = time.time()
     # ---- non-uniform grids from real dimension-wise runs
@@ -912,4 +994,4 @@ def _run(ctx):
 
 @single_thread
 def replay(ctx, case):
-    {"uniform": case_uniform, "driver": case_driver, "tree": case_tree}[case["kind"]](ctx, case)
+    {"uniform": case_uniform, "uniform_seq": case_uniform_seq, "driver": case_driver, "tree": case_tree}[case["kind"]](ctx, case)
